@@ -382,13 +382,15 @@ def check_c16(case):
                     "detail": {"value": repr(V), "got": repr(got)}, "case": case})
 
     wf = pipeline_wf(form)
-    wf["input"] = ["x", {"lst": None}]
+    wf["input"] = ["x", {"lst": None}, {"xd": "declared-default"}, {"xn": 60}]
+    wf["output"] = wf["output"] + [{"zd": REF_FORMS[form].format(v="xd")}, {"zn": REF_FORMS[form].format(v="xn")}]
     spec = native_specs.WorkflowSpec(copy.deepcopy(wf))
     insp = spec.inspect()
     if insp:
         return {"violations": [{"property": "C16", "kind": "pipeline_rejected", "sig": {"form": form},
                                 "detail": insp, "case": case}]}
-    c = conducting.WorkflowConductor(spec, inputs={"x": copy.deepcopy(V), "lst": [copy.deepcopy(V)]})
+    c = conducting.WorkflowConductor(spec, inputs={"x": copy.deepcopy(V), "lst": [copy.deepcopy(V)],
+                                                   "xd": copy.deepcopy(V), "xn": copy.deepcopy(V)})
 
     def crash(c):
         if persist:
@@ -406,6 +408,9 @@ def check_c16(case):
             v("value_changed", "input->ctx", ctx0.get("x"))
         if not strict_eq(ctx0.get("w"), V):
             v("value_changed", "ctx->vars(%s)" % form, ctx0.get("w"))
+        for nm in ("xd", "xn"):
+            if not strict_eq(ctx0.get(nm), V):
+                v("value_changed", "input(with declared default)->ctx", ctx0.get(nm))
         nt = c.get_next_tasks()
         a = nt[0]["actions"][0]["input"]
         if not strict_eq(a["m"], V):
@@ -456,6 +461,8 @@ def check_c16(case):
             v("value_changed", "ctx->output", o.get("z"))
         if not strict_eq(o.get("zi"), [V]):
             v("value_changed", "ctx->output(list)", o.get("zi"))
+        if not strict_eq(o.get("zd"), V) or not strict_eq(o.get("zn"), V):
+            v("value_changed", "input(with declared default)->output", [o.get("zd"), o.get("zn")])
         # internals never leak into published contexts or outputs
         for i, d in enumerate(c.workflow_state.contexts):
             if any(str(k).startswith("__") for k in d):
